@@ -595,6 +595,7 @@ func famCompare(dir string, seed int64, tier string) {
 	w.flush()
 	wCb.flush()
 	apiLongStreamReaders(rep, r)
+	apiCompareEmptyStreams(rep)
 	rep.write(dir)
 	repCb.write(dir)
 }
